@@ -2,6 +2,7 @@
 (C01, C02, C08, C09).  Every scenario runs on the real code (tunnel_sim.Script); the recorded
 step lines are replayed on the Lean model by the caller.
 """
+import errno
 import tunnel_sim as ts
 from tunnel_sim import Io
 from common import hexb
@@ -31,13 +32,19 @@ class Opts:
         self.both = False
         self.epipe = False           # an endpoint may stop receiving (send -> EPIPE) while it keeps sending
         self.verbose = None          # verbosity both processes run at (10 + v: verbosity v, stderr gone); None = rotate
+        self.platform = None         # errno numbering (0 POSIX, 1 would-block = 10035 as on Windows); None = rotate
         self.__dict__.update(k)
+
+
+# errnos other platforms / stacks report for a send or receive on a dying connection (macOS: EPROTOTYPE; others:
+# ENOTCONN, ENOBUFS, EIO, EINVAL); the code contains EVERY OSError on send and receive, not only its NET_ERRS
+OTHER_SOCK_ERRS = [errno.EPROTOTYPE, errno.ENOTCONN, errno.ENOBUFS, errno.EIO, errno.EINVAL]
 
 
 def fault_errno(rng, t):
     """A receive / send failure with one of the errnos the code under test handles as a network error (its own
     NET_ERRS); the bare 'x' (a reset) stays in the mix."""
-    errs = sorted(int(e) for e in getattr(t.ssnet, 'NET_ERRS', []))
+    errs = sorted(set(int(e) for e in getattr(t.ssnet, 'NET_ERRS', [])) | set(OTHER_SOCK_ERRS))
     return rng.choice(['x'] + ['x%d' % e for e in errs])
 
 
@@ -56,6 +63,7 @@ _verb_state = [0]
 
 def set_verbosity_seed(seed):
     _verb_state[0] = int(seed) % len(VERBS)
+    _plat_state[0] = int(seed) % len(PLATS)
 
 
 def next_verbose():
@@ -64,12 +72,26 @@ def next_verbose():
     return v
 
 
+# The platform's errno numbering is a dimension too (one scenario in five runs with the would-block errno of Windows
+# sockets; the period is coprime to the verbosity rotation's, so every combination comes up).
+PLATS = [0, 0, 1, 0, 0]
+_plat_state = [0]
+
+
+def next_platform():
+    v = PLATS[_plat_state[0] % len(PLATS)]
+    _plat_state[0] += 1
+    return v
+
+
 class Scenario:
     def __init__(self, rng, o):
         self.rng, self.o = rng, o
         if getattr(o, 'verbose', None) is None:
             o.verbose = next_verbose()
-        self.s = ts.Script(o.maxchan, o.bufsize, o.chani, verbose=getattr(o, 'verbose', 0))
+        if getattr(o, 'platform', None) is None:
+            o.platform = next_platform()
+        self.s = ts.Script(o.maxchan, o.bufsize, o.chani, verbose=getattr(o, 'verbose', 0), platform=getattr(o, 'platform', 0))
         self.t = self.s.t
         self.faulty = set()      # flows that received an injected fault
         self.refused = set()     # (flow, endpoint) pairs whose endpoint stopped receiving (EPIPE): not a fault of the flow
@@ -231,10 +253,12 @@ class Scenario:
     # everything queued by the peer, every endpoint socket is as ready as its environment makes it (readable iff
     # something is pending or it closed, always writable) and the tunnel's write file is writable; select hands back
     # only what pre_select asked for, so a wake-up the code forgets to ask for is simply not given.
-    def drain(self, max_rounds=400, on_round=None):
+    def drain(self, max_rounds=400, on_round=None, conn='ok'):
+        """conn: how a connect() still in progress answers during the drain ('ok' = it completes; an EINPROGRESS
+        value = it stays pending for ever, e.g. a destination that never answers the SYN)."""
         import struct
         t, o = self.t, self.o
-        full = Io('ok', 'd65536', 's65536', False)
+        full = Io(conn, 'd65536', 's65536', False)
         last = None
         same = 0
         # The scripted / random phase before a drain may have handled a frame with a bare `deliver` step.  In the real
@@ -551,7 +575,8 @@ def replay_work(case):
     import random
     cfg = case['script'][0].split()
     cfgv = case.get('cfg') or []
-    o = Opts(maxchan=int(cfg[1]), bufsize=int(cfg[2]), chani=int(cfg[3]), verbose=(cfgv[4] if len(cfgv) > 4 else 0))
+    o = Opts(maxchan=int(cfg[1]), bufsize=int(cfg[2]), chani=int(cfg[3]), verbose=(cfgv[4] if len(cfgv) > 4 else 0),
+             platform=(cfgv[5] if len(cfgv) > 5 else 0))
     sc = Scenario(random.Random(0), o)
     try:
         for st in decode_steps(case['steps']):
@@ -725,7 +750,7 @@ def burst_in_one_read(ctx, rng, prop, nwrites, bufsize=32768, latency=False, dst
         if dst_closes:
             for i in range(3):
                 sc.do(('de', i))
-        q = sc.drain()
+        q = sc.drain(max_rounds=400 + nwrites)        # one buffered chunk per callback: the bound grows with the burst
         if not sc.stop:
             oracle_prefix(ctx, sc, prop, 'burst')
             oracle_complete(ctx, sc, prop, q)
@@ -908,6 +933,48 @@ def eof_meets_connect(ctx, rng, prop, reply_len):
         sc.close()
 
 
+def close_before_connect_hangs(ctx, rng, prop, nbytes):
+    """The application connects and closes without having sent anything — and the server's connect() never completes
+    (the destination does not answer).  The flow has nowhere to go: it must be torn down within bounded work on both
+    ends (the pending connect given up, the end-of-stream sent back, handlers dropped, the id free), not left waiting
+    for a connect that nobody needs any more.  Real select-loop passes; the connect stays in progress throughout.
+    (With `nbytes` > 0 buffered for the destination the code keeps waiting for the connect, by design: the bytes are
+    owed to the destination if it ever answers — only nbytes = 0 is judged.)"""
+    o = Opts(nflows=1, steps=0)
+    sc = Scenario(rng, o)
+    try:
+        t = sc.t
+        full = Io('ok', 'd65536', 's65536', False)
+        sc.do(('accept',))
+        if nbytes:
+            sc.env_write(0, 'app', payload(rng, nbytes, 3))
+        sc.do(('ae', 0))
+        for _ in range(2):
+            sc.do(('round', 'c', 0, 'auto', full))
+        sc.do(('deliver', 's', 'ok'))                          # PING
+        sc.do(('deliver', 's', 'e115:0'))                      # CONNECT: connect() in progress
+        while t.cmux.outbuf and not sc.stop:
+            sc.do(('deliver', 's', 'ok'))
+        sc.faulty.add(0)                                       # (what the application sent cannot arrive anywhere)
+        q = sc.drain(conn='e115:0')
+        if not sc.stop and t.flows:
+            f = t.flows[0]
+            c_listed, s_listed = f.cproxy in t.chandlers, f.sproxy in t.shandlers
+            c_reg, s_reg = bool(t.cmux.channels.get(f.chan)), bool(t.smux.channels.get(f.chan))
+            if not q or c_listed or s_listed or c_reg or s_reg or not f.app.saw_shut:
+                report(ctx, sc, '%s:teardown:closed-before-connect-not-torn-down' % prop, 0,
+                       'application closed, connect() never completes',
+                       'quiescent, both handlers dropped, the id free on both ends, the application told (its socket shut)',
+                       dict(quiescent=q, client_handler=c_listed, server_handler=s_listed, client_id_held=c_reg,
+                            server_id_held=s_reg, app_shut=f.app.saw_shut))
+            elif q:
+                oracle_quiet(ctx, sc, prop)
+        oracle_alive(ctx, sc, prop, 'run')
+        return sc.s.ins, sc.s.outs
+    finally:
+        sc.close()
+
+
 def reader_closed_keeps_sending(ctx, rng, prop, which):
     """One endpoint stops receiving (the tunnel's send to it fails with EPIPE) but keeps sending: that ends ONE
     direction; everything the endpoint sends afterwards must still reach its peer, followed by its end-of-stream.
@@ -1083,15 +1150,17 @@ def replay_script(lines, steps=None):
     real-code steps) the run is exact, select-loop rounds included; `lines` alone (older replay files) re-runs the
     model-level rendering, which has no rounds."""
     verbose = 0
+    platform = 0
     if isinstance(lines, dict):
         steps = lines.get('steps')
         cfgv = lines.get('cfg') or []
         verbose = cfgv[4] if len(cfgv) > 4 else 0
+        platform = cfgv[5] if len(cfgv) > 5 else 0
         lines = lines['script']
     cfg = lines[0].split()
     maxchan, bufsize, chani = int(cfg[1]), int(cfg[2]), int(cfg[3])
     occ = [int(x) for x in cfg[4:]]
-    s = ts.Script(maxchan, bufsize, chani, occ, verbose=verbose)
+    s = ts.Script(maxchan, bufsize, chani, occ, verbose=verbose, platform=platform)
     wrote = {}
     if steps:
         for st in decode_steps(steps):
